@@ -832,3 +832,84 @@ Proof.
   split; [|vm_compute; reflexivity].
   cbn. repeat constructor; cbn; intuition discriminate.
 Qed.
+
+(* ---- retry paths and repeated / concurrent runs ------------------------------------------------------- *)
+
+Lemma filter_filter_and {A : Type} (f g : A -> bool) l :
+  filter f (filter g l) = filter (fun x => g x && f x) l.
+Proof.
+  induction l as [|x l IH]; [reflexivity|]. cbn [filter].
+  destruct (g x); cbn [filter andb]; [destruct (f x)|]; rewrite IH; reflexivity.
+Qed.
+
+(* the group sent for destination d: the live deposits for d of the first retry event, then those of the
+   second, ... - event (log) order, and inside an event the order of its deposits *)
+Lemma retry_grouping_event_order {M : Type} (dest : M -> N) (live : M -> bool) d (evs : list (list M)) :
+  lookup d (group dest (filter live (List.concat evs))) = List.concat (map (fun ev => for_dest dest d (filter live ev)) evs).
+Proof.
+  rewrite grouping_order_free. unfold for_dest.
+  rewrite <- concat_filter_map, <- concat_filter_map, map_map. reflexivity.
+Qed.
+
+Lemma retry_model_in src s e evs id d ns :
+  In (id, d, ns) (retry_model src s e evs) ->
+  id = retry_message_id src (Z.of_N d) s e /\
+  ns = map rd_nonce (List.concat (map (fun ev => for_dest rd_dest d (filter rd_live ev)) evs)).
+Proof.
+  unfold retry_model. intros H. apply in_map_iff in H as [d' [E _]]. injection E as <- <- <-.
+  split; [reflexivity|]. unfold retry_groups, retry_msgs. rewrite retry_grouping_event_order. reflexivity.
+Qed.
+
+Lemma list_eqb_eq {X : Type} (eqb : X -> X -> bool) (Heq : forall a b, eqb a b = true <-> a = b) a b :
+  list_eqb eqb a b = true <-> a = b.
+Proof.
+  revert b; induction a as [|x a IH]; intros [|y b]; cbn; split; intros H; try congruence; try reflexivity.
+  - apply andb_true_iff in H as [H1 H2]. apply Heq in H1. apply IH in H2. congruence.
+  - inversion H; subst. apply andb_true_iff; split; [apply Heq | apply IH]; reflexivity.
+Qed.
+
+Lemma mg_eqb_eq a b : mg_eqb a b = true <-> a = b.
+Proof.
+  destruct a as [[i d] n], b as [[i' d'] n']. unfold mg_eqb. cbn [fst snd]. split; intros H.
+  - apply andb_true_iff in H as [H12 H3]. apply andb_true_iff in H12 as [H1 H2].
+    apply String.eqb_eq in H1. apply N.eqb_eq in H2. apply nl_eqb_eq in H3. congruence.
+  - inversion H; subst. rewrite !andb_true_iff; repeat split;
+      [apply String.eqb_refl | apply N.eqb_refl | apply nl_eqb_eq; reflexivity].
+Qed.
+
+Lemma mgl_eqb_eq a b : mgl_eqb a b = true <-> a = b.
+Proof. apply list_eqb_eq, mg_eqb_eq. Qed.
+
+Lemma mgll_eqb_eq a b : mgll_eqb a b = true <-> a = b.
+Proof. apply list_eqb_eq, mgl_eqb_eq. Qed.
+
+Lemma all_same_sound {X : Type} (eqb : X -> X -> bool) (Heq : forall a b, eqb a b = true <-> a = b) ref runs :
+  all_same eqb ref runs = true -> forall r, In r runs -> r = ref.
+Proof.
+  unfold all_same. intros H r Hr. rewrite forallb_forall in H. symmetry. apply Heq, H, Hr.
+Qed.
+
+Lemma all_same_repeat {X : Type} (eqb : X -> X -> bool) (Heq : forall a b, eqb a b = true <-> a = b) ref n :
+  all_same eqb ref (repeat ref n) = true.
+Proof.
+  unfold all_same. apply forallb_forall. intros x Hx. apply repeat_spec in Hx. subst. apply Heq. reflexivity.
+Qed.
+
+(* the judge of the repeated runs accepts only observations that do not differ between repetitions ... *)
+Lemma reps_ok_sound runs r1 r2 : reps_ok runs = true -> In r1 runs -> In r2 runs -> r1 = r2.
+Proof.
+  destruct runs as [|r rest]; [intros _ []|]. cbn [reps_ok]. intros H H1 H2.
+  assert (A : forall x, In x (r :: rest) -> x = r).
+  { intros x [<-|Hx]; [reflexivity|]. exact (all_same_sound mgl_eqb mgl_eqb_eq r rest H x Hx). }
+  rewrite (A _ H1), (A _ H2). reflexivity.
+Qed.
+
+(* ... and accepts the model (a function of the chain data) repeated any number of times *)
+Lemma reps_ok_model m n : reps_ok (repeat m n) = true.
+Proof. destruct n; [reflexivity|]. cbn [repeat reps_ok]. apply all_same_repeat, mgl_eqb_eq. Qed.
+
+Lemma conc_ok_sound seq runs : conc_ok seq runs = true -> forall r, In r runs -> r = seq.
+Proof. apply all_same_sound, mgll_eqb_eq. Qed.
+
+Lemma conc_ok_model m n : conc_ok m (repeat m n) = true.
+Proof. apply all_same_repeat, mgll_eqb_eq. Qed.
